@@ -988,6 +988,23 @@ fn many_errors_program(rng: &mut Rng) -> String {
             text.push_str("e0\n");
             text
         }
+        4 if rng.chance(1, 2) => {
+            // names bound twice inside a nested group, and used again after the group has ended
+            // (whatever bookkeeping restores the outer scope has to cope with the clash)
+            let k = rng.range(1, 3);
+            let mut inner = String::new();
+            let mut names = vec![];
+            for i in 0..k {
+                inner.push_str(&format!("again{i} = {i}; again{i} = {}; ", i + 10));
+                names.push(format!("again{i}"));
+            }
+            let outer_before = if rng.chance(1, 2) { format!("{} = 0\n", names[0]) } else { String::new() };
+            format!(
+                "{outer_before}f = ({inner}{})\ng = y => {}\ng f\n",
+                names.join(" + "),
+                names.join(" + ")
+            )
+        }
         4 => {
             // many re-bound names
             let mut text = String::new();
@@ -1153,6 +1170,11 @@ fn type_level_program(rng: &mut Rng) -> String {
         format!("(p : int -> type) =>\n(g : (a : int) -> p (if a {cmp} {b} then a else {a}) -> int) =>\n(z : int) => (w : p (if z {cmp} {b} then z else {a})) => g z w\n"),
         format!("(vec : int -> type) =>\n(app : (n : int) -> (m : int) -> vec n -> vec m -> vec (n + m)) =>\n(x : vec {a}) => (y : vec {b}) => (r : vec ({a} + {b}) -> int) => r (app {a} {b} x y)\n"),
         format!("(vec : int -> type) =>\n(app : (n : int) -> (m : int) -> vec n -> vec m -> vec (n + m)) =>\n(x : vec {a}) => (y : vec {b}) => (r : vec {} -> int) => r (app _ _ x y)\n", a + b + rng.below(2)),
+        // stuck sums / products whose corresponding operands are convertible but not written alike
+        format!("(vec : int -> type) =>\n(len : int -> int) =>\n(f : (n : int) -> vec (len {a} {op} n) -> int) =>\n(n : int) => (v : vec (len ({} + {}) {op} n)) => f n v\n", a / 2, a - a / 2),
+        format!("(vec : int -> type) =>\n(len : int -> int) =>\n(f : (n : int) -> vec (n {op} len ({a} * 1)) -> int) =>\n(n : int) => (v : vec (n {op} len {a})) => f n v\n"),
+        format!("(vec : int -> type) =>\n(g : int -> int) => (h : int -> int) =>\n(f : (n : int) -> vec (g (1 + {a}) {op} h n) -> int) =>\n(n : int) => (v : vec (g ({a} + 1) {op} h n)) => f n v\n"),
+        format!("two = 1 + 1\n(vec : int -> type) =>\n(len : int -> int) =>\n(f : (n : int) -> vec (len two {op} n) -> int) =>\n(n : int) => (v : vec (len 2 {op} n)) => f n v\n"),
     ];
     templates[rng.below(templates.len())].clone()
 }
@@ -1568,8 +1590,40 @@ pub fn perturb(rng: &mut Rng, source: &str) -> String {
     text
 }
 
+/// W12: programs that are accepted and never terminate, built so that their states recur only up
+/// to renaming (callbacks spelled with different binder names rotate through the arguments). On
+/// the unchanged tree every launch of such a program hits the cap and the group is discarded;
+/// they are there for changes that make divergent programs *end* (loop detectors, fuel limits).
+fn divergent_program(rng: &mut Rng) -> String {
+    let k = rng.range(2, 7);
+    let names = ["x", "y", "z", "u", "v", "w", "t"];
+    let params: Vec<String> = (0..k).map(|i| format!("f{i}")).collect();
+    let ty = vec!["(int -> int)"; k].join(" -> ");
+    let binders: String = params.iter().map(|p| format!("{p} => ")).collect();
+    let mut rotated = params.clone();
+    rotated.rotate_left(1);
+    let callbacks: Vec<String> = (0..k)
+        .map(|i| {
+            let n = names[i % names.len()];
+            if rng.chance(1, 4) { format!("(({n} : int) => {n} + 0)") } else { format!("(({n} : int) => {n})") }
+        })
+        .collect();
+    match rng.below(3) {
+        0 => format!("spin : ({ty} -> int) = {binders}spin {}\nspin {}\n", rotated.join(" "), callbacks.join(" ")),
+        1 => format!(
+            "spin : ({ty} -> int -> int) = {binders}n => spin {} (n + 0)\nspin {} 0\n",
+            rotated.join(" "),
+            callbacks.join(" ")
+        ),
+        _ => format!("loop : (int -> int) = n => loop (n + {})\nloop 0\n", rng.below(3)),
+    }
+}
+
 /// Generated case number `index` of the stream; `corpus` is W1.
 pub fn generate(rng: &mut Rng, corpus: &[String]) -> Case {
+    if rng.chance(3, 1000) {
+        return Case { family: "W12-divergent", source: divergent_program(rng) };
+    }
     let case = generate_base(rng, corpus);
     // one case in four is perturbed (the family label keeps its base)
     if rng.chance(1, 4) && case.source.len() < 6000 {
